@@ -1,4 +1,4 @@
-(* C07 - rculfhash: a removed node has exactly one owner (src/rculfhash.c _cds_lfht_del); reclamation template proved on the queue (C12)
+(* C07 - rculfhash: a removed node has exactly one owner among del and replace callers (src/rculfhash.c _cds_lfht_del, _cds_lfht_replace); reclamation template proved on the queue (C12)
    Property theorems only: each is the full statement, closed by `exact`, followed by Print Assumptions. *)
 Require Import Coq.Lists.List.
 Require Import Coq.NArith.NArith.
@@ -13,7 +13,7 @@ Require Import Urcu.Lfht.LfhtFind.
 Require Import Urcu.Lfht.LfhtOwner.
 Import ListNotations.
 
-(* in every run at most one ownership exchange per node returns a word without the owner flag: exactly one del obtains the node *)
+(* in every run, per node, at most one event is an ownership exchange of a del that returns a word without the owner flag or a successful replacing cmpxchg: exactly one caller obtains the node *)
 Theorem C07_single_owner :
     forall (C : cfg) (isB : N -> bool),
     (forall i : N, isB (bucket C i) = true) ->
